@@ -30,7 +30,7 @@ ASSUMPTIONS = [
 ]
 FLOORS = {
     "quick": {"segmented-executions": 30000, "segmented-executions-with-client-debug": 8000,
-              "segmented-executions-over-tls": 15000, "cut-inside-literal": 3000, "streams": 150,
+              "segmented-executions-over-tls": 15000, "segmented-executions-on-a-slow-link": 5000, "cut-inside-literal": 3000, "streams": 150,
               "boundary-streams-exact-multiple-of-read-size": 12},
     "thorough": {"segmented-executions": 1500000,
                  "segmented-executions-with-client-debug": 300000,
@@ -97,7 +97,7 @@ def reply_corpus(rng, n):
 SENT = b'OK "sentinel one"\r\nNO (SENTINEL-7) "sentinel two"\r\n'
 
 
-def execute(op, args, stream, seg, connect_stream=None, debug=False, tls=False):
+def execute(op, args, stream, seg, connect_stream=None, debug=False, tls=False, slow=False):
     """Run op + two sentinels against `stream` under segmentation `seg`.
     -> (outcome key, unread bytes, client buffer)"""
     srv = ms.Server(users={b"user": b"pw"}, encodings="quoted")
@@ -108,6 +108,9 @@ def execute(op, args, stream, seg, connect_stream=None, debug=False, tls=False):
     # segmentation applies to the stream of this operation and the sentinels
     seg.offset = 0
     sess.sock.seg = seg
+    if slow:
+        # a slow but steady link: a virtual second passes with every recv(), none times out
+        sess.sock.seconds_per_recv = 1.0
     o = sess.call(op, *args)
     first = (mslab.outcome_key(o), repr(sess.client.errcode), repr(sess.client.errmsg))
     s1 = sess.call("havespace", "s", 1)
@@ -247,16 +250,21 @@ def run_replies(shard, res: Result, tier):
             # the same stream over the TLS-wrapped transport (connect with STARTTLS): the
             # segments are TLS records, the socket is an ssl.SSLSocket with pending()
             runs += [(k, p, False, True) for k, p in segs]
-        for kind, p, debug, tls in runs:
-            got = execute(op, args, stream, mkseg(kind, p), debug=debug, tls=tls)
+        runs = [r + (False,) for r in runs] + [
+            (k, p, False, False, True) for k, p in segs if k in ("cap", "random") or
+            (k == "cut" and p[0] % 5 == 0)]
+        for kind, p, debug, tls, slow in runs:
+            got = execute(op, args, stream, mkseg(kind, p), debug=debug, tls=tls, slow=slow)
             res.count("segmented-executions")
+            if slow:
+                res.count("segmented-executions-on-a-slow-link")
             if tls:
                 res.count("segmented-executions-over-tls")
             if debug:
                 res.count("segmented-executions-with-client-debug")
                 kind_l = kind
             res.observe("segmentation-kinds", kind)
-            res.case(repr((op, stream, kind, p, debug, tls)))
+            res.case(repr((op, stream, kind, p, debug, tls, slow)))
             inside = kind in ("cut", "cut2") and any(a < c < e for c in p for a, e in spans)
             if inside:
                 res.count("cut-inside-literal")
@@ -270,7 +278,7 @@ def run_replies(shard, res: Result, tier):
                                ("cap/random" if kind in ("cap", "random") else
                                 "outside-literal")},
                               {"op": op, "stream": stream, "segmentation": [kind, repr(p)],
-                               "client_debug": debug, "over_tls": tls,
+                               "client_debug": debug, "over_tls": tls, "slow_link": slow,
                                "whole": repr(base[0])[:300], "segmented": repr(got[0])[:300]})
                 continue
             # quiescence only where the baseline itself is quiescent
@@ -304,6 +312,18 @@ def run_connect(shard, res: Result):
         def run(seg):
             srv = build()
             sess = mslab.Session(srv, seg)
+            if variant % 3 == 2:
+                # the client object has a past: an earlier session (delivered whole), then
+                # ten idle seconds (virtual time), then this connect
+                sess.seg = ms.Seg()
+                sess.server = build()
+                sess.connect("user", "pw")
+                sess.call("logout")
+                ms.let_time_pass(10.0)
+                sess.server = srv
+                sess.seg = seg
+                sess.wire = ms.Wire()
+                seg.offset = 0
             o = sess.connect("user", "pw")
             l = sess.call("listscripts") if o == ("ret", True) else None
             return (mslab.outcome_key(o), sess.client.authenticated,
@@ -394,7 +414,7 @@ def replay(witness, res: Result):
             "setactive": ("x",), "havespace": ("x", 5)}[op]
     base = execute(op, args, stream, ms.Seg())
     got = execute(op, args, stream, mkseg(kind, p), debug=bool(witness.get("client_debug")),
-                  tls=bool(witness.get("over_tls")))
+                  tls=bool(witness.get("over_tls")), slow=bool(witness.get("slow_link")))
     print("whole    :", base[0])
     print("segmented:", got[0])
     if got[0] != base[0]:
